@@ -370,3 +370,86 @@ def ''' + nm + '''(f, k, t, bits, start_index, w, shuffles):
 
 c02_chain(False)
 c02_chain(True)
+
+
+# ---------------------------------------------------------------------------------------------------------------- C01 (fast mode)
+def c01_fast(shuffled, with_check):
+    name = "c01_roundtrip_fast" + ("_table" if shuffled else "") + ("_vt" if with_check else "")
+    sh = "shuffles" if shuffled else "None"
+    enc = ("s, chk = encode(bits, accessor, start_index, True, n, %s)" if with_check else "s = encode(bits, accessor, start_index, True, 0, %s)") % sh
+    dec = "out = decode(s, len(bits), accessor, start_index, True, %s, %s)" % ("chk" if with_check else "None", sh)
+    bij = ("digit_bijection_table(row(accessor, encode_vtx[t]), row(shuffles, encode_vtx[t]), "
+           "ite(deg(accessor, encode_vtx[t]) == 4, 2 * bits[encode_loc[t]] + ite(encode_loc[t] + 1 < len(bits), bits[encode_loc[t] + 1], 0), bits[encode_loc[t]]))"
+           if shuffled else
+           "digit_bijection(row(accessor, encode_vtx[t]), "
+           "ite(deg(accessor, encode_vtx[t]) == 4, 2 * bits[encode_loc[t]] + ite(encode_loc[t] + 1 < len(bits), bits[encode_loc[t] + 1], 0), bits[encode_loc[t]]))")
+    src = """
+def %s(bits, accessor, start_index, shuffles, k, R, rank, n):
+    %s
+    m = len(s)
+    i = 0
+    while i < m:
+        mark(code(s[i]))
+        mark(i)
+        i += 1
+    %s
+    %s
+    q = 0
+    while q < m:
+        mark(code(s[q]))
+        q += 1
+    t = 0
+    while t < m:
+        mark(code(s[t]))
+        mark(encode_vtx[t])
+        if deg(accessor, encode_vtx[t]) > 1:
+            %s
+        assert decode_dgp[t] == deg(accessor, encode_vtx[t]) and decode_locd[t] == encode_loc[t] and encode_loc[t] < len(bits), "same-radix-and-cursor"
+        if deg(accessor, encode_vtx[t]) == 4:
+            assert decode_ddp[t] == 2 * bits[encode_loc[t]] + ite(encode_loc[t] + 1 < len(bits), bits[encode_loc[t] + 1], 0), "digit-read-back-4"
+            assert out[encode_loc[t]] == bits[encode_loc[t]], "first-cell-4"
+            if encode_loc[t] + 1 < len(bits):
+                assert out[encode_loc[t] + 1] == bits[encode_loc[t] + 1], "second-cell-4"
+        if deg(accessor, encode_vtx[t]) == 2:
+            assert decode_ddp[t] == bits[encode_loc[t]], "digit-read-back-2"
+            assert out[encode_loc[t]] == bits[encode_loc[t]], "cell-2"
+        # only the facts the invariant needs survive to the end of the body (the quantified scheme facts are heavy)
+        cut(forall(lambda c: implies(c < encode_loc[t], out[c] == bits[c]), 0, len(bits), lambda c: out[c]),
+            0 <= t and t < m, 0 <= encode_loc[t] and encode_loc[t] < len(bits), len(out) == len(bits),
+            encode_loc[t + 1] == encode_loc[t] + ite(deg(accessor, encode_vtx[t]) == 4, 2, ite(deg(accessor, encode_vtx[t]) == 2, 1, 0)),
+            implies(deg(accessor, encode_vtx[t]) >= 2, out[encode_loc[t]] == bits[encode_loc[t]]),
+            implies(deg(accessor, encode_vtx[t]) == 4 and encode_loc[t] + 1 < len(bits), out[encode_loc[t] + 1] == bits[encode_loc[t] + 1]))
+        t += 1
+    assert out == bits, "decode(encode(message)) == message (fast mode)"
+""" % (name, enc, dec, "forget('asum', 'ssum', 'codes_of')" if with_check else "pass", bij)
+    from contracts.spiderweb import WF_FAST
+    req = dict(WFH)
+    req["reachable-closed"] = WF_FAST["reachable-closed"]
+    req["no-out-degree-3"] = "forall(lambda v: deg(accessor, v) != 3, 0, ipow(4, k), lambda v: here(v))"
+    if shuffled:
+        req["table"] = "is_table(shuffles, k)"
+    if with_check:
+        req["check-length"] = "n >= 1"
+    harness(name, {"bits": "nd_bits", "accessor": "mat(ipow(4, k), 4)", "start_index": "nat",
+                   "shuffles": "mat(ipow(4, k), 4)" if shuffled else "none", "R": "nd_bits", "rank": "list_int", "n": "nat"},
+            src, requires=req, ghost_params={"k": "nat"},
+            loops={
+                1: dict(invariant={"range": "0 <= i <= m",
+                                   "walk": "walkv(accessor, s, start_index, i) == encode_vtx[i] and encode_vtx[i] >= 0",
+                                   "cursor": "floc(accessor, s, start_index, i) == encode_loc[i]",
+                                   "dna": "is_dna(s, 0, i)",
+                                   "room-so-far": "forall(lambda p: implies(walkv(accessor, s, start_index, p + 1) >= 0 and "
+                                                  "deg(accessor, walkv(accessor, s, start_index, p)) >= 2, floc(accessor, s, start_index, p) < len(bits)), "
+                                                  "0, i, lambda p: here(p))"}, variant="m - i"),
+                2: dict(invariant={"range": "0 <= q <= m",
+                                   "same-vertices": "forall(lambda j: decode_vtxd[j] == encode_vtx[j] and decode_locd[j] == encode_loc[j], 0, q + 1)"},
+                        variant="m - q"),
+                3: dict(invariant={"range": "0 <= t <= m",
+                                   "cells-read-back": "forall(lambda c: implies(c < encode_loc[t], out[c] == bits[c]), 0, len(bits), lambda c: out[c])"},
+                        variant="m - t"),
+            })
+
+
+for _sh in (False, True):
+    for _vt in (False, True):
+        c01_fast(_sh, _vt)
